@@ -44,6 +44,8 @@ class FunctionReport:
         o = self.obligations.setdefault(name, {"verdict": "proved", "n": 0, "backends": set(), "t": 0.0})
         o["n"] += 1
         o["backends"].add(info.get("backend", "?"))
+        if info.get("backend2"):
+            o["backends"].add(info["backend2"])
         o["t"] += info.get("t", 0.0)
         order = {"proved": 0, "undecided": 1, "refuted": 2}
         if order[verdict] > order[o["verdict"]]:
